@@ -250,7 +250,10 @@ func (g *bGen) genCase(version uint32, idx int) *bCase {
 	// as found and the repaired code, and C01/C03 do not depend on that repair)
 	if g.prop == "C02" && rng.Intn(pHost) == 0 {
 		ai := rng.Intn(nAcct)
-		switch rng.Intn(3) {
+		switch rng.Intn(4) {
+		case 3:
+			c.PremiumAlt = 1 + rng.Intn(4)
+			c.Devs = append(c.Devs, fmt.Sprintf("hostile-premium-formula-%d", c.PremiumAlt))
 		case 0:
 			max := uint64(best) + uint64(bMaxAccountExpiry)
 			vals := []uint64{max + 1, max + 2, max + 1000, 0xffffffff, max, max - 1, uint64(best), 1}
@@ -450,7 +453,12 @@ func (g *bGen) settle(c *bCase, h *bHostile) {
 		a := &c.Env.Accounts[ai]
 		keep := a.Value
 		a.Value = 0
-		end0, _, involved := c.specEndingBalance(a)
+		prem := bSpecPremium
+		if c.PremiumAlt != 0 {
+			kind := c.PremiumAlt
+			prem = func(amt int64, rate, dur uint32) int64 { return bAltPremium(kind, amt, rate, dur) }
+		}
+		end0, _, involved := c.endingBalanceWith(a, prem)
 		if !involved {
 			a.Value = int64(100_000 + rng.Intn(10_000_000))
 			if h.keepValues {
@@ -480,7 +488,7 @@ func (g *bGen) settle(c *bCase, h *bHostile) {
 		if h.keepValues {
 			a.Value = keep
 		}
-		end, n, _ := c.specEndingBalance(a)
+		end, n, _ := c.endingBalanceWith(a, prem)
 		ending := end.Int64()
 		d := bDiff{AcctKey: a.Key, EndingBalance: uint64(ending), OutpointIndex: -1, NewVersion: uint32(a.Version)}
 		// expiry extension / version upgrade as an honest auctioneer does
